@@ -18,6 +18,7 @@ mod c_round;
 mod c_diag;
 mod c_unify;
 mod c_ctx;
+mod c_rewrite;
 
 fn main() {
     colored::control::set_override(false);
@@ -37,12 +38,14 @@ fn main() {
         "roundtrip" => c_round::main(rest),
         "record-unify" => c_unify::record(rest),
         "record-ctx" => c_ctx::record(rest),
+        "replay-rewrite" => c_rewrite::replay(rest),
         "replay-listing" => c_diag::replay_listing(rest),
         "plant-scope" => c_diag::plant_scope(rest),
         "plant-type" => c_diag::plant_type(rest),
         "replay-scope" => c_scope::replay(rest),
         "replay-parse" => c_parse::replay(rest),
         "gen-programs" => c_gen::main(rest),
+        "parse-hosts" => c_gen::parse_hosts(rest),
         "record-pipeline" => c_pipe::record(rest),
         "replay-pipeline" => c_pipe::replay(rest),
         "worker" => match rest[0].as_str() {
@@ -51,6 +54,7 @@ fn main() {
             "roundtrip" => c_round::worker(),
             "unify" => c_unify::worker(),
             "ctx" => c_ctx::worker(),
+            "rewrite" => c_rewrite::worker(),
             "plant-type" => c_diag::plant_type_worker(),
             k => {
                 eprintln!("unknown worker kind {k}");
